@@ -31,10 +31,11 @@ class Case:
         self.plan = list(plan)  # rules with {src}/{dst} placeholders in the path field
         self.flags = list(flags)
         self.label = label
+        self.seed = None        # schedule seed: random holding of threads at system-call entries
 
     def key(self):
         return (self.size, tuple(self.data), self.driver, self.workers, self.bs, self.reflink, self.prior,
-                tuple(self.plan), tuple(self.flags))
+                tuple(self.plan), tuple(self.flags), getattr(self, 'seed', None))
 
     def describe(self):
         return dict(size=self.size, data=self.data if len(self.data) < 8 else "%d ranges" % len(self.data),
@@ -77,7 +78,10 @@ def run_case(ctx, case, d, idx, sup):
         argv += ["--block-size", str(case.bs)]
     argv += list(case.flags) + [src, dst]
     rules = [(a, p1, p2, s, n, path.replace("{src}", src).replace("{dst}", dst)) for (a, p1, p2, s, n, path) in case.plan]
-    run = xcp.run_supervised(sup, argv, d, d, rules=rules, tag="c%d" % idx, timeout_ms=60000)
+    kw = {}
+    if getattr(case, "seed", None) is not None:
+        kw = dict(seed=case.seed, hold_permille=250, hold_maxms=3)
+    run = xcp.run_supervised(sup, argv, d, d, rules=rules, tag="c%d" % idx, timeout_ms=60000, **kw)
     o.run = run
     o.exit = run.exit
     o.argv = argv
